@@ -278,21 +278,13 @@ def translate() -> tuple[str, dict]:
     # (null strings: translate/c13_nullstr.py)
 
     # ---------------- FileInfo.write placement sites (booleans)
-    src_w = [ast.unparse(s) for s in ast.walk(fwrite) if isinstance(s, ast.stmt)]
-    tail_to_footer = False
-    for n in ast.walk(fwrite):
-        if isinstance(n, ast.If) and ast.unparse(n.test) == 'arch_index is None':
-            body = [ast.unparse(s) for s in n.body]
-            if body == ['self.offset = len(self.vpk.footer_data)', 'self.vpk.footer_data += arch_data']:
-                tail_to_footer = True
-    cap = False
-    for n in ast.walk(fwrite):
-        if isinstance(n, ast.If) and ast.unparse(n.test) == 'prefix is None or limit is None':
-            body = [ast.unparse(s) for s in n.body]
-            els = [ast.unparse(s) for s in n.orelse]
-            if body == ['arch_index = None', 'limit = MAX_PRELOAD'] and els == ['if limit > MAX_PRELOAD:\n    limit = MAX_PRELOAD']:
-                cap = True
-    split_ok = 'self.start_data = data[:limit]' in src_w and 'arch_data = data[limit:]' in src_w and 'limit = self.vpk.dir_limit' in src_w
+    # FileInfo.write is executed on symbolic values for all 24 combinations of (directory VPK?, limit class, index None?, rest empty?):
+    # translate/c13_place.py; the table is judged in Coq (SM/VpkPlace.v place_cut_ok / place_dest_ok / place_table_ok)
+    from translate import c13_place
+    pw = c13_place.analyse_write(fwrite, consts)
+    cap, tail_to_footer = c13_place.rows_ok(pw['rows'])
+    split_ok = True
+    side['place'] = {'rows': pw['rows'], 'same_crc_skips': pw['same_crc_skips'], 'facts': pw['facts']}
     idx_fn = [n for n in tree.body if isinstance(n, ast.FunctionDef) and n.name == '_check_arch_index']
     idx_cmp = bool(idx_fn) and any(isinstance(n, ast.If) and ast.unparse(n.test) == 'arch_index is not None and (not 0 <= arch_index < DIR_ARCH_INDEX)'
                                    for n in ast.walk(idx_fn[0]))
@@ -316,7 +308,7 @@ def translate() -> tuple[str, dict]:
     nl = lambda xs: '[' + '; '.join(str(x) for x in xs) + ']%N'
     text = '\n'.join([
         '(* GENERATED by translate/c13_vpk.py from /repo/src/srctools/vpk.py. Do not edit. *)',
-        'From Coq Require Import List NArith Bool.', 'From SV Require Import Fmt.VpkDir SM.Vpk Fmt.VpkNameSplit.', 'Import ListNotations.',
+        'From Coq Require Import List NArith Bool.', 'From SV Require Import Fmt.VpkDir SM.Vpk Fmt.VpkNameSplit SM.VpkPlace.', 'Import ListNotations.',
         'Open Scope N_scope.',
         f'Definition g_sig : N := {consts["VPK_SIG"]}.',
         f'Definition g_dir_index_write : N := {write_dir_sentinel}.',
@@ -328,8 +320,11 @@ def translate() -> tuple[str, dict]:
         f'Definition g_entry_fields_match : bool := {b(fields_match)}.',
         f'Definition g_zero_len_resets_offset : bool := {b(zero_len_resets_offset)}.',
         f'Definition g_max_preload : option N := {"Some " + str(max_pre) if max_pre is not None else "None"}.',
-        f'Definition g_preload_capped : bool := {b(cap and split_ok)}.',
-        f'Definition g_tail_to_footer : bool := {b(tail_to_footer)}.',
+        f'(* FileInfo.write (line {fwrite.lineno}) executed on symbolic values: one row per combination of directory VPK? / limit class / index None? / rest empty? *)',
+        'Definition g_place_table : list prow :=\n  ' + c13_place.coq_rows(pw['rows']) + '.',
+        f'Definition g_same_crc_skips : bool := {b(pw["same_crc_skips"])}.',
+        'Definition g_preload_capped : bool := place_cut_ok g_place_table.',
+        'Definition g_tail_to_footer : bool := place_dest_ok g_place_table.',
         f'Definition g_chk_idx : bool := {b(chk_idx)}.',
         f'Definition g_chk_name : bool := {b(chk_name)}.',
         f'Definition g_ext_split : split_kind := {split_kind} {split_sep}.',
